@@ -65,6 +65,22 @@ def tls_hello_two_records(sni):
     return tls_hello_records(sni, 2)
 
 
+def tls_hello_sized(sni, sizes, extra_ext=b""):
+    """the handshake message cut into TLS records whose payload sizes are `sizes` (the rest goes into a last record) —
+    record-layer fragmentation of RFC 5246 §6.2.1 / RFC 8446 §5.1, e.g. a first record with 1..3 handshake bytes"""
+    hs = tls_hello(sni, extra_ext=extra_ext)[5:]
+    out, pos, first = b"", 0, True
+    for n in list(sizes) + [len(hs)]:
+        part = hs[pos:pos + n]
+        if not part: break
+        out += b"\x16\x03" + (b"\x01" if first else b"\x03") + len(part).to_bytes(2, "big") + part
+        pos += len(part); first = False
+    return out
+
+
+TINY_SPLITS = [[1], [2], [3], [4], [5], [1] * 8, [1, 1], [3, 1], [1, 2, 1], [2, 2]]
+
+
 CCS = bytes.fromhex("140303000101")                                  # TLS 1.3 middlebox-compatibility ChangeCipherSpec
 EARLY_DATA = bytes.fromhex("1703030018") + bytes(range(0x40, 0x58))   # 0-RTT application data record
 ALERT = bytes.fromhex("15030300020100")
@@ -379,7 +395,7 @@ class Check(PropertyCheck):
     def flight(self, rng, tcp=True):
         """-> (bytes, intent) where intent = {"host": bytes|None, "sni": str|None} or None when the flight is not a complete
         well-formed first flight"""
-        k = rng.weighted([(5, "http"), (3, "tls"), (1, "tls2"), (3, "tlsplus"), (1, "raw"), (1, "mut"), (1, "trunc")]) if tcp else \
+        k = rng.weighted([(5, "http"), (3, "tls"), (2, "tls2"), (3, "tlsplus"), (1, "raw"), (1, "mut"), (1, "trunc")]) if tcp else \
             rng.weighted([(4, "dtls"), (1, "dtlsplus"), (2, "quicish"), (1, "raw"), (1, "trunc")])
         if k == "http":
             d = self.head(rng, self.host_value(rng) if rng.chance(0.9) else None)
@@ -387,8 +403,11 @@ class Check(PropertyCheck):
         if k in ("tls", "tls2", "dtls"):
             sni = rng.pick(self.HOSTS + [None, "bad host!", "a.example"])
             if sni is not None and ":" in sni: sni = "v6.example"
-            d = tls_hello_two_records(sni) if k == "tls2" else tls_hello(sni, dtls=(k == "dtls"),
-                                                                          extra_ext=rng.pick([b"", b"\x00\x10\x00\x05\x00\x03\x02h2"]))
+            if k == "tls2":
+                sizes = rng.pick(TINY_SPLITS) if rng.chance(0.6) else [rng.randint(1, 9) for _ in range(rng.randint(1, 12))]
+                d = tls_hello_sized(sni, sizes)
+            else:
+                d = tls_hello(sni, dtls=(k == "dtls"), extra_ext=rng.pick([b"", b"\x00\x10\x00\x05\x00\x03\x02h2"]))
             ok = sni is not None and netcheck.is_valid_host(sni.encode())
             return d, {"host": None, "sni": sni if ok else None}
         if k in ("tlsplus", "dtlsplus"):
@@ -398,7 +417,7 @@ class Check(PropertyCheck):
             if k == "dtlsplus":
                 d = tls_hello(sni, dtls=True, extra_ext=ext) + rng.pick([DTLS_CCS, DTLS_CCS + b"\x17\xfe\xfd" + bytes(10) + b"\x00\x02ab", b"\x00junk"])
             else:
-                d = tls_hello_records(sni, rng.randint(1, 4), ext) + rng.pick(TRAILERS)
+                d = (tls_hello_sized(sni, rng.pick(TINY_SPLITS), ext) if rng.chance(0.35) else tls_hello_records(sni, rng.randint(1, 4), ext)) + rng.pick(TRAILERS)
                 if rng.chance(0.2): d += rng.pick(TRAILERS)
             ok = sni is not None and netcheck.is_valid_host(sni.encode())
             return d, {"host": None, "sni": sni if ok else None}
@@ -469,6 +488,7 @@ class Check(PropertyCheck):
                                         (4, ["s", hx(rng.pick([b"HTTP/1.1 200 OK\r\n\r\n", b"\x16\x03\x03\x00\x01\x00", b"srv", bytes(range(255, -1, -1)) * rng.pick([6, 65])]))]),
                                         (1, ["xc"]), (1, ["xs"]), (3, ["ok"]), (0.4, ["err"])]))
         if strategy == "lazy" and rng.chance(0.8): script.insert(0, ["ok"])
+        if base is not None: script.append(["c", hx(b"following-data")])
         return {"kind": "e2e", "mode": mode, "scheme": rng.pick(["http", "tcp", "https", "tls"]) if not udp else "udp", "strategy": strategy,
                 "cfg": c, "flight": [hx(s) for s in segs], "script": script, "intent": self.ser_intent(intent)}
 
@@ -490,6 +510,21 @@ class Check(PropertyCheck):
         short = [(b"GET / HTTP/1.1\r\nHost:example.com\r\n\r\n", "spec"), (tls_hello("example.com"), {"host": None, "sni": "example.com"}),
                  (tls_hello("example.com") + CCS + EARLY_DATA, {"host": None, "sni": "example.com"}),
                  (tls_hello_records("example.com", 3) + CCS, {"host": None, "sni": "example.com"})]
+        # unit level: ClientHello fragmented into tiny records (first record 1..5 handshake bytes, one byte per record, ...)
+        for sizes in TINY_SPLITS:
+            for tr in (b"", CCS):
+                d = tls_hello_sized("example.com", sizes) + tr
+                for rules in ({"ignore": [{"s": 0, "e": 0, "lit": "example.com"}], "allow": []}, {"ignore": [], "allow": [{"s": 0, "e": 0, "lit": "example.com"}]},
+                              {"ignore": [], "allow": [{"s": 0, "e": 0, "lit": "other.example"}]}):
+                    yield {"kind": "ig", "cfg": dict(rules, tcp=1, wg=0, peer=None, addr=["192.0.2.1", 443], csni=None), "dc_hex": hx(d), "ds_hex": "-",
+                           "intent": {"sni": "example.com"}}
+            yield {"kind": "tlsig", "dtls": 0, "flight": [hx(tls_hello_sized("example.com", sizes))], "after": [hx(b"zz")], "complete": 1}
+            yield self.e2e_case(rng, base=(tls_hello_sized("example.com", sizes), {"host": None, "sni": "example.com"}))
+        short_tiny = [(tls_hello_sized("example.com", [1]), {"host": None, "sni": "example.com"}),
+                      (tls_hello_sized("example.com", [1] * 8) + CCS, {"host": None, "sni": "example.com"})]
+        for base in short_tiny:
+            for cut in range(1, len(base[0]), 2 if tier == "thorough" else 7):
+                yield self.e2e_case(rng, cuts=cut, base=base)
         # unit level: a ClientHello followed by every trailer, ignore and allow rule matching by SNI only
         for tr in TRAILERS:
             for n in (1, 2, 3):
@@ -522,11 +557,13 @@ class Check(PropertyCheck):
             else:
                 dtls = rng.chance(0.25)
                 d = tls_hello(rng.pick(self.HOSTS[:4] + [None]), dtls=dtls)
+                complete = 1
                 if not dtls and rng.chance(0.4): d = tls_hello_records(rng.pick(self.HOSTS[:4]), rng.randint(1, 3)) + rng.pick(TRAILERS)
+                elif not dtls and rng.chance(0.3): d = tls_hello_sized(rng.pick(self.HOSTS[:4]), rng.pick(TINY_SPLITS))
                 elif dtls and rng.chance(0.3): d += DTLS_CCS
-                if rng.chance(0.15): d = self.mutate(rng, d)
+                if rng.chance(0.15): d = self.mutate(rng, d); complete = 0
                 segs = [d] if dtls else rng.split(d, rng.randint(1, 4))
-                yield {"kind": "tlsig", "dtls": int(dtls), "flight": [hx(s) for s in segs], "after": [hx(rng.pick([b"\x17\x03\x03\x00\x02ab", b"zz"])) for _ in range(rng.randint(0, 2))]}
+                yield {"kind": "tlsig", "dtls": int(dtls), "flight": [hx(s) for s in segs], "after": [hx(rng.pick([b"\x17\x03\x03\x00\x02ab", b"zz"])) for _ in range(rng.randint(0, 2))], "complete": complete}
 
     # ================================================================================ implementation runner
     def impl(self, case):
@@ -744,6 +781,9 @@ class Check(PropertyCheck):
             if obs["errors"]: fails.append(f"layer raised: {obs['errors'][:1]}")
             sent = b"".join(unhx(x) for x in obs["toServer"])
             allc = b"".join(unhx(x) for x in case["flight"] + case["after"])
+            if case.get("complete") and obs["state"] != "parsed":
+                # "every byte is relayed ... including bytes received before the decision": the decision must come once the hello is complete
+                fails.append(f"passthrough(tls): complete ClientHello delivered but ClientTLSLayer is '{obs['state']}', relayed {len(sent)} of {len(allc)} bytes")
             if obs["state"] == "parsed":
                 # "every byte is relayed unmodified and in order ..., including bytes received before the decision"
                 if sent != allc: fails.append(f"passthrough(tls): server got {sent.hex()} client sent {allc.hex()}")
@@ -786,7 +826,9 @@ class Check(PropertyCheck):
         n_flight = sum(1 for e in obs["events"][: len(flight)] if e.startswith("c:"))
         if exp is not None and n_flight == len(flight):
             if stack is None:
-                fails.append("verdict: no layer chosen after a complete first flight")
+                later = sum(1 for e in obs["events"][len(flight):] if e.startswith("c:"))
+                fails.append(f"verdict: no layer chosen after the complete first flight ({len(whole)} bytes) and {later} later client "
+                             f"segment(s): nothing is relayed, the connection hangs")
             elif bool(exp) != bool(is_relay):
                 # at which prefix was the decision taken?
                 k = obs.get("decided_at")
